@@ -418,7 +418,7 @@ class Body:
         return sorted(car, key=self.rank), [n for n in names if n not in env]
 
     def iterable(self, node, target, env):
-        """-> (Gallina list, binder lines, {name: kind} of the loop variables)"""
+        """-> (Gallina list, binder of the fold's function, destructuring line or None, {name: kind} of the loop variables)"""
         if isinstance(node, ast.Call) and isinstance(node.func, ast.Name) and not node.keywords:
             if node.func.id == "range" and len(node.args) == 1 and isinstance(target, ast.Name):
                 return "(pyrange %s)" % self.intexpr(node.args[0], env), cq(target.id), None, {target.id: NAT}
